@@ -53,7 +53,7 @@ func driveC13(a *args, s *vt.Sink) error {
 	}
 	n := a.n
 	if n == 0 {
-		n = 60
+		n = 150
 		if a.tier == "thorough" {
 			n = 1200
 		}
